@@ -76,7 +76,8 @@ fn b2b(rng: &mut Rng) -> Vec<&'static str> {
 }
 fn bytes_json(rng: &mut Rng) -> String { format!("{{\"name\":\"bytes\",\"configuration\":{{\"endian\":\"{}\"}}}}", if rng.chance(1, 2) { "big" } else { "little" }) }
 
-const DTS: [(&str, &str, usize, &[(&str, &[u8])]); 4] = [
+const DTS: [(&str, &str, usize, &[(&str, &[u8])]); 5] = [
+    ("complex64", "c8", 8, &[("[0.0,0.0]", &[0; 8]), ("[1.5,1.5]", &[0, 0, 0xc0, 0x3f, 0, 0, 0xc0, 0x3f])]),
     ("uint8", "u1", 1, &[("0", &[0]), ("7", &[7])]),
     ("int16", "i2", 2, &[("0", &[0, 0]), ("-2", &[0xfe, 0xff])]),
     ("float32", "f4", 4, &[("0.0", &[0, 0, 0, 0]), ("\"NaN\"", &[0, 0, 0xc0, 0x7f]), ("1.5", &[0, 0, 0xc0, 0x3f])]),
@@ -144,7 +145,9 @@ pub fn generate(tier: &str, seed: u64) -> Vec<String> {
     let n = if thorough { 4000 } else { 400 };
     for i in 0..n {
         let rank = *rng.pick(&[0usize, 1, 1, 2, 2, 3]);
-        let (dname, v2name, es, fills) = *rng.pick(&DTS);
+        let (mut dname, mut v2name, mut es, mut fills) = *rng.pick(&DTS);
+        // complex64: V3 only, rank >= 1 (it is modelled as float32 with a trailing dimension)
+        if dname == "complex64" && (i % 3 == 2 || rank == 0) { let d = DTS[3]; dname = d.0; v2name = d.1; es = d.2; fills = d.3; }
         let (fill_json, fill) = *rng.pick(fills);
         let path = *rng.pick(&["/", "/a", "/g/arr"]);
         if i % 3 != 2 {
